@@ -449,7 +449,43 @@ def discover(seed=20):
             if len(guards) > 1:
                 raise TranslateError(f"translate: block {blk['list']} has several guards {guards}")
             blk[slot] = guards[0] if guards else None
+    blocks.append(_probe_disk())
     return blocks
+
+
+def _disk_stats(entries):
+    d = {"disk_usage_" + k: [] for k in DISK_KINDS}
+    for (idx, field, kind, value) in entries:
+        d["disk_usage_" + kind].append({"index": idx, "field": field, "value": value, "unit": "byte"})
+    return d
+
+
+DISK_KINDS = ["inverted_index", "stored_fields", "doc_values", "points", "norms", "term_vectors", "total"]
+
+
+def _probe_disk():
+    """direction and Diff % convention of the per-field disk usage rows (their unit and conversion depend on the values
+    and are modelled by `diskRow`)"""
+    b = _disk_stats([("i", "f", "total", -3 * 10**9), ("i", "f", "points", -3 * 10**9)])
+    c = _disk_stats([("i", "f", "total", -2 * 10**9), ("i", "f", "points", -2 * 10**9)])
+    try:
+        tab = _raw_table(b, c, False, False)
+    except Exception as e:
+        raise TranslateError(f"translate: disk usage probe raised {type(e).__name__}: {e}")
+    rows = [r for r in tab if len(r) == 7 and r[0].startswith("i f ")]
+    if not rows:
+        raise TranslateError("translate: no per-field disk usage rows in the probe")
+    incs, conv = set(), set()
+    for r in rows:
+        col, _ = _cell_colour(r[4])
+        pcol, ptxt = _cell_colour(r[6])
+        if col not in ("green", "red") or not ptxt or ptxt[0] not in "+-":
+            raise TranslateError(f"translate: disk usage probe row not coloured / signed: {r}")
+        incs.add(col == "green")
+        conv.add(ptxt[0] == "+")
+    if len(incs) != 1 or len(conv) != 1:
+        raise TranslateError("translate: disk usage rows disagree on direction / convention")
+    return {"kind": "disk", "inc": next(iter(incs)), "pctabs": next(iter(conv)), "rows": []}
 
 
 def render_lean(blocks):
@@ -463,7 +499,10 @@ def render_lean(blocks):
                 f"{'true' if s['inc'] else 'false'}, .{s['fmt']}, {'true' if s['proc'] else 'false'}, {'true' if s['pctabs'] else 'false'}⟩")
 
     bl = []
+    disk = [b for b in blocks if b["kind"] == "disk"][0]
     for b in blocks:
+        if b["kind"] == "disk":
+            continue
         rows = ",\n".join(spec(s) for s in b["rows"])
         if b["kind"] == "scalars":
             bl.append(f"  .scalars [\n{rows}]")
@@ -474,7 +513,9 @@ def render_lean(blocks):
             gc = "none" if b["guardc"] is None else f"(some {_lean_str(b['guardc'])})"
             bl.append(f"  .joined {_lean_str(b['list'])} {g} {gc} [\n{rows}]")
     out.append(",\n".join(bl))
-    out += ["]", "", "end CompareRows", ""]
+    out += ["]", "", "/-- per-field disk usage rows: treat_increase_as_improvement and the Diff % convention (probed) -/",
+            f"def diskIncGood : Bool := {'true' if disk['inc'] else 'false'}",
+            f"def diskPctAbs : Bool := {'true' if disk['pctabs'] else 'false'}", "", "end CompareRows", ""]
     return "\n".join(out)
 
 
@@ -488,6 +529,7 @@ def translate(repo_root):
             f.write(text)
     rows = [s for b in blocks for s in b["rows"]]
     return {"blocks": [b["kind"] + (":" + b["list"] if b["kind"] == "joined" else "") for b in blocks], "rows": len(rows),
+            "disk_rows": {k: v for k, v in [b for b in blocks if b["kind"] == "disk"][0].items() if k in ("inc", "pctabs")},
             "higher_is_better": sorted({s["label"] for s in rows if s["inc"]}),
             "pct_divides_by_abs_baseline": sorted({s["label"] for s in rows if s["pctabs"]}),
             "guards": {b["list"]: [b["guard"], b["guardc"]] for b in blocks if b["kind"] == "joined"},
@@ -501,8 +543,30 @@ def _dyadic(rng):
     return rng.randrange(-4000, 4000) / 2 ** rng.randrange(0, 12)
 
 
+UNIT_BYTES = {"bytes": 1, "kB": 2**10, "MB": 2**20, "GB": 2**30, "TB": 2**40, "PB": 2**50}
+
+
+def gen_size(rng):
+    """a byte count on, next to, or well inside every unit boundary from bytes to beyond a PiB"""
+    base = 2 ** rng.choice([0, 10, 10, 20, 20, 30, 30, 40, 40, 40, 50, 60])
+    r = rng.random()
+    if r < 0.3:
+        x = base + rng.choice([-2, -1, 0, 0, 1, 2, 1024, -1024])
+    elif r < 0.6:
+        x = int(base * rng.choice([1.5, 1.2, 0.999, 1.001, 3, 700, 1023.5, 0.5]))
+    elif r < 0.8:
+        x = rng.randrange(0, 4 * base + 1)
+    else:
+        x = base * rng.choice([1.5, 1.0, 2.25, 1 + 2**-20, 1 - 2**-30, 1000.125])  # float byte counts (medians)
+    if rng.random() < 0.05:
+        x = -x
+    return max(x, 0) if isinstance(x, int) and rng.random() < 0.9 else x
+
+
 def gen_value(rng):
     r = rng.random()
+    if r < 0.07:
+        return gen_size(rng)
     if r < 0.10:
         return rng.choice([0, 0.0, -0.0, 0])
     if r < 0.30:
@@ -540,6 +604,8 @@ def derive(rng, x):
         return float(x) if isinstance(x, int) else (int(x) if abs(x) < 1e15 else x)
     if r < 0.70 and isinstance(x, int):
         return x + rng.randrange(-3, 4)
+    if r < 0.76 and abs(x) > 512:
+        return gen_size(rng)
     return gen_value(rng)
 
 
@@ -783,18 +849,25 @@ def gen_none_lists(ctx):
 
 
 def gen_disk_usage(ctx):
-    """exercise-only stream: adds disk_usage_* attributes (rows are not modelled; direct oracle only)"""
+    """per-field disk usage: byte counts across every unit boundary, on both sides or on one side only"""
     rng = ctx.rng
-    kinds = ["inverted_index", "stored_fields", "doc_values", "points", "norms", "term_vectors"]
+    kinds = DISK_KINDS[:-1]
     for _ in range(ctx.budget):
         b, c = gen_pair(rng, density=0.05, tasks=False, lists=False)
         for side in (b, c):
-            for k in kinds + ["total"]:
+            for k in DISK_KINDS:
                 side["disk_usage_" + k] = []
         for idx in ["i1", "i2"][: rng.choice([1, 2])]:
             for field in ["f1", "f2", "_id"][: rng.choice([1, 2, 3])]:
-                parts_b = {k: rng.choice([0, rng.randrange(0, 5000), rng.randrange(0, 10**7), rng.randrange(0, 10**11)]) for k in kinds if rng.random() < 0.7}
-                parts_c = {k: rng.choice([parts_b.get(k, 0), 0, parts_b.get(k, 0) + rng.randrange(0, 2000), rng.randrange(0, 10**10)]) for k in kinds if k in parts_b or rng.random() < 0.2}
+                def size():
+                    x = gen_size(rng)
+                    return abs(int(x)) if rng.random() < 0.85 else abs(x)
+                parts_b = {k: rng.choice([0, size(), size(), rng.randrange(0, 5000)]) for k in kinds if rng.random() < 0.7}
+                parts_c = {}
+                for k in kinds:
+                    if k in parts_b or rng.random() < 0.2:
+                        x = parts_b.get(k, 0)
+                        parts_c[k] = rng.choice([x, 0, x + rng.choice([1, -1, 2000, 2**20]) if x > 2**21 else x + 1, size(), int(x * rng.choice([0.5, 1.2, 1024, 1 / 1024]))])
                 for side, parts in ((b, parts_b), (c, parts_c)):
                     if rng.random() < 0.1:
                         continue  # the field does not exist in this race
@@ -802,6 +875,117 @@ def gen_disk_usage(ctx):
                         side["disk_usage_" + k].append({"index": idx, "field": field, "value": x, "unit": "byte"})
                     side["disk_usage_total"].append({"index": idx, "field": field, "value": sum(parts.values()), "unit": "byte"})
         yield {"b": b, "c": c, "proc": False, "fmt": rng.choice(["markdown", "csv"]), "no_model": True}
+
+
+def gen_units(ctx):
+    rng = ctx.rng
+    for _ in range(ctx.budget):
+        x = gen_size(rng) if rng.random() < 0.85 else gen_value(rng)
+        if not _in_domain(x):
+            x = 1
+        yield {"v": x}
+
+
+def run_units(ctx, case):
+    """convert.bytes_to_human_unit / convert.bytes_to_unit against `humanUnit` / `HUnit.fmt`, and: value shown × unit = value"""
+    from esrally.utils import convert
+
+    v = case["v"]
+    unit = convert.bytes_to_human_unit(v)
+    shown = convert.bytes_to_unit(unit, v)
+    m = ctx.model("compare", "human_unit", {"v": canon_val(v)})
+    if "err" in m:
+        ctx.sig(["out-of-domain"], nontrivial=False)
+        return
+    if m["r"] != [unit, canon_val(shown)]:
+        ctx.diff("human_unit", m["r"], [unit, canon_val(shown)])
+    _check_unit_value(ctx, "units", f"bytes_to_unit({unit!r}, {v!r})", unit, canon_val(shown), v)
+    if unit != "bytes" and not abs(frac(canon_val(shown))) > 1:
+        _fail(ctx, "unit-choice", f"bytes_to_human_unit({v!r}) = {unit!r} although the value does not exceed one {unit}", None, repr(shown))
+    ctx.sig([unit, isinstance(v, int), v < 0, "tags", m.get("tags")])
+
+
+def _exact_frac(x):
+    return Fraction(x) if isinstance(x, int) else Fraction(*x.as_integer_ratio())
+
+
+def _check_unit_value(ctx, cls_prefix, what, unit, shown_cv, stored):
+    """value shown × bytes-per-unit = stored value (exactly: division by a power of two; up to the int → float conversion)"""
+    if unit not in UNIT_BYTES:
+        _fail(ctx, "unit-value", f"{what}: unknown size unit {unit!r}", sorted(UNIT_BYTES), unit)
+        return False
+    got = frac(shown_cv) * UNIT_BYTES[unit]
+    exp = _exact_frac(stored)
+    if abs(got - exp) > abs(exp) / 2**52:
+        _fail(ctx, "unit-value", f"{what}: value shown × {unit} is not the stored value", str(exp), f"{float(frac(shown_cv))!r} {unit}")
+        return False
+    return True
+
+
+def _disk_lookup(d, idx, field, kind):
+    v = 0
+    for e in d.get("disk_usage_" + kind) or []:
+        if e["index"] == idx and e["field"] == field:
+            v = e["value"]
+    return v
+
+
+def oracle_disk_rows(ctx, b, c, rows, what):
+    """every per-field disk usage row: the model's `diskRow` on the stored values (correspondence), value shown × unit =
+    stored bytes, Diff = (contender − baseline) in that unit"""
+    labels = {}
+    for side in (b, c):
+        for kind in DISK_KINDS:
+            for e in side.get("disk_usage_" + kind) or []:
+                labels[f"{e['index']} {e['field']} {kind.replace('_', ' ')}"] = (e["index"], e["field"], kind)
+    n = 0
+    for r in rows:
+        if len(r) != 7 or r[1] != "" or r[0] not in labels:
+            continue
+        n += 1
+        idx, field, kind = labels[r[0]]
+        bv, cv = _disk_lookup(b, idx, field, kind), _disk_lookup(c, idx, field, kind)
+        m = ctx.model("compare", "disk_row", {"plain": False, "label": r[0], "b": canon_val(bv), "c": canon_val(cv)})
+        if "r" in m and m["r"] != r:
+            ctx.diff(f"disk_row:{what}", m["r"], r)
+        unit = r[5]
+        ok = _check_unit_value(ctx, "disk", f"{what}: row {r[0]!r} baseline", unit, r[2], bv)
+        ok = _check_unit_value(ctx, "disk", f"{what}: row {r[0]!r} contender", unit, r[3], cv) and ok
+        d = _parse_cell(r[4], False)
+        if ok and d is not None:
+            exp = (_exact_frac(cv) - _exact_frac(bv)) / UNIT_BYTES[unit]
+            # half a printed unit + the rounding of the float subtraction (relative to the operands, not to the difference)
+            if abs(d["val"] - exp) > Fraction(1, 199999) + (abs(_exact_frac(bv)) + abs(_exact_frac(cv)) + abs(exp)) / UNIT_BYTES[unit] / 2**50:
+                _fail(ctx, "unit-value", f"{what}: Diff of {r[0]!r} is not contender − baseline in {unit}", str(float(exp)), d["txt"])
+        ctx.count("disk-rows:" + str(unit))
+    return n
+
+
+SCALAR_UNIT_FACTOR = {"min": 60000, "s": 1000, "ms": 1, "%": Fraction(1, 100), "": 1, **UNIT_BYTES}
+
+
+def oracle_global_values(ctx, b, c, fwd, what="b→c"):
+    """every global row shows, in its printed unit, a (baseline, contender) pair of values stored under one and the same
+    attribute of the two races - independent of the generated table"""
+    u = universe()
+    leaves = {}
+    for k in u["scalars"]:
+        if is_num(b.get(k)) and is_num(c.get(k)):
+            leaves[k] = (b[k], c[k])
+    for k in u["shards"]:
+        for sk in ("min", "mean", "median", "max"):
+            x, y = (b.get(k) or {}).get(sk), (c.get(k) or {}).get(sk)
+            if is_num(x) and is_num(y):
+                leaves[f"{k}.{sk}"] = (x, y)
+    for r in fwd:
+        if r["key"][1] != "" or r["unit"] not in SCALAR_UNIT_FACTOR:
+            continue
+        f = SCALAR_UNIT_FACTOR[r["unit"]]
+        sb, sc_ = r["fb"] * f, r["fc"] * f
+        near = lambda got, x: abs(got - _exact_frac(x)) <= abs(_exact_frac(x)) / 2**48
+        if not any(near(sb, x) and near(sc_, y) for (x, y) in leaves.values()):
+            _fail(ctx, "global-values", f"{what}: row {r['key'][0]!r} does not show, in {r['unit']!r}, a value pair stored under one attribute of both races",
+                  None, [str(float(r["fb"])), str(float(r["fc"])), r["unit"]])
 
 
 # ---------------------------------------------------------------------------------------------
@@ -1142,6 +1326,15 @@ def run_table(ctx, case):
     oracle_task_values(ctx, b, c, fwd)
     if "bwd" not in errs:
         oracle_task_values(ctx, c, b, bwd, "c→b")
+    if use_model:
+        oracle_global_values(ctx, b, c, fwd)
+    else:
+        nd = oracle_disk_rows(ctx, b, c, tabs["fwd"]["r"], "b→c")
+        if "bwd" not in errs:
+            nd += oracle_disk_rows(ctx, c, b, tabs["bwd"]["r"], "c→b")
+        if "self_b" not in errs:
+            nd += oracle_disk_rows(ctx, b, b, tabs["self_b"]["r"], "b→b")
+        ctx.count("disk-rows", nd)
     oracle_files(ctx, case, tabs["fwd_plain"]["r"])
     sig = set()
     for r in fwd:
@@ -1152,6 +1345,138 @@ def run_table(ctx, case):
     ctx.count("rows", len(fwd))
     ctx.count("cases-with-rows" if fwd else "cases-empty")
     ctx.sig([sorted(sig), sorted(tags), sorted(errs)], nontrivial=bool(fwd))
+
+
+# ---------------------------------------------------------------------------------------------
+# reporter.compare(cfg, baseline_id, contender_id) end to end on a real FileRaceStore
+# ---------------------------------------------------------------------------------------------
+ID_FAMILIES = [
+    ["nightly-1", "nightly-10", "nightly-11", "nightly-2", "nightly-100"],
+    ["run-1", "run-1-retry", "run-12", "run"],
+    ["baseline", "baseline-v2", "base"],
+    ["6c0a7f4e-3a52-4f0b-9a55-1d2b8c9e0f11", "6c0a7f4e-3a52-4f0b-9a55-1d2b8c9e0f12", "6c0a7f4e"],
+    ["a", "ab", "abc"],
+]
+
+
+def gen_store(ctx):
+    """several stored races whose ids include prefix relations, equal timestamps and different ages; comparisons by id,
+    including ids nobody stored (proper prefixes, extensions, glob-like strings)"""
+    rng = ctx.rng
+    for _ in range(ctx.budget):
+        fam = rng.choice(ID_FAMILIES)
+        ids = rng.sample(fam, rng.randrange(2, len(fam) + 1))
+        if rng.random() < 0.4:
+            ids += rng.sample(rng.choice([f for f in ID_FAMILIES if f is not fam]), 1)
+        races = []
+        same_ts = rng.random() < 0.25
+        order = list(range(len(ids)))
+        rng.shuffle(order)  # age is independent of the name: longer ids newer, older, or equal
+        for i, rid in enumerate(ids):
+            res, _ = gen_pair(rng, density=rng.choice([0.1, 0.3]), tasks=rng.random() < 0.7, lists=False)
+            ts = "20260101T000000Z" if same_ts else "2026%02d%02dT0%d0000Z" % (1 + order[i] % 12, 1 + (order[i] * 7) % 27, order[i] % 10)
+            races.append({"id": rid, "ts": ts, "results": res, "full": rng.random() < 0.5})
+        pairs = []
+        for _ in range(rng.choice([2, 3, 4])):
+            pairs.append([rng.choice(ids), rng.choice(ids)])
+        unknown = [i for i in fam if i not in ids] + [ids[0][:-1], ids[0] + "0", ids[0][: max(1, len(ids[0]) // 2)] + "*", ids[-1] + "x"]
+        unknown = [x for x in unknown if x and x not in ids]
+        if unknown:
+            pairs.append(rng.choice([[rng.choice(unknown), rng.choice(ids)], [rng.choice(ids), rng.choice(unknown)]]))
+        yield {"races": races, "pairs": pairs, "proc": rng.random() < 0.2}
+
+
+def _parse_num(txt):
+    if re.match(r"^[+-]?\d+$", txt):
+        return int(txt)
+    return float(txt)
+
+
+def run_store(ctx, case):
+    import json as _json
+
+    from esrally import config, exceptions, metrics, reporter
+
+    tmp = tempfile.mkdtemp(prefix="c20-store-")
+    try:
+        stored = {}
+        for r in case["races"]:
+            results = r["results"]
+            if r["full"]:  # every attribute written, as GlobalStatsCalculator's result is
+                results = metrics.GlobalStats(results).as_dict()
+            doc = {"rally-version": "2.0.0", "rally-revision": "abc", "environment": "local", "race-id": r["id"], "race-timestamp": r["ts"],
+                   "pipeline": "benchmark-only", "user-tags": {}, "track": "t", "car": ["c"], "challenge": "ch",
+                   "cluster": {"revision": "r", "distribution-version": "8.0.0", "distribution-flavor": "default", "team-revision": "t"},
+                   "results": results}
+            d = os.path.join(tmp, "races", r["id"])
+            os.makedirs(d)
+            with open(os.path.join(d, "race.json"), "w", encoding="utf-8") as f:
+                f.write(_json.dumps(doc, indent=True, ensure_ascii=False))
+            stored[r["id"]] = _json.loads(_json.dumps(results))
+        model_races = [{"id": rid, "stats": to_model(res)} for rid, res in stored.items()]
+        for n, (bid, cid) in enumerate(case["pairs"]):
+            out = os.path.join(tmp, f"report-{n}.csv")
+            cfg = config.Config()
+            for sec, k, v in (("reporting", "output.path", out), ("reporting", "format", "csv"), ("reporting", "output.processingtime", case["proc"]),
+                              ("reporting", "datastore.type", "in-memory"), ("node", "rally.cwd", tmp), ("node", "root.dir", tmp), ("system", "env.name", "local")):
+                cfg.add(config.Scope.application, sec, k, v)
+            try:
+                with _rich_console():
+                    reporter.compare(cfg, bid, cid)
+                with open(out, newline="", encoding="utf-8") as f:
+                    got = {"r": list(csv.reader(f))[1:]}
+            except exceptions.NotFound:
+                got = {"err": "NotFound"}
+            except TypeError:
+                got = {"err": "TypeError"}
+            m = ctx.model("compare", "compare_store", {"races": model_races, "bid": bid, "cid": cid, "plain": True, "proc": case["proc"]})
+            if m.get("err") == "OutOfDomain":
+                ctx.sig(["out-of-domain"], nontrivial=False)
+                continue
+            mm = {"err": m["err"]} if "err" in m else {"r": [[r[0], r[1], _pystr(r[2]), _pystr(r[3]), r[4], "" if r[5] is None else r[5], r[6]] for r in m["r"]]}
+            if mm != got:
+                bad = None
+                if "r" in mm and "r" in got:
+                    bad = [(a, z) for a, z in zip(mm["r"], got["r"]) if a != z][:1] or [(len(mm["r"]), len(got["r"]))]
+                ctx.diff(f"compare({bid!r}, {cid!r})", bad if bad else mm.get("err", "rows"), got.get("err", "rows") if bad is None else None)
+            # direct oracle: the rows are those of the two NAMED races; an id nobody stored is an error
+            known = bid in stored and cid in stored
+            if not known:
+                if "err" not in got or got["err"] != "NotFound":
+                    _fail(ctx, "unknown-id", f"compare({bid!r}, {cid!r}) with stored ids {sorted(stored)} does not report the unknown id", "NotFound",
+                          got.get("err", f"{len(got.get('r', []))} rows"))
+                ctx.sig(["unknown", got.get("err")], nontrivial=True)
+                continue
+            if "err" in got:
+                cls = "typeerror-none-list" if got["err"] == "TypeError" and _one_sided_transforms(stored[bid], stored[cid]) else "store-error"
+                _fail(ctx, cls, f"compare({bid!r}, {cid!r}) raises although both races are stored", "a report", got["err"])
+                continue
+            rows = []
+            for r in got["r"]:
+                if len(r) != 7:
+                    _fail(ctx, "row-shape", "malformed report row", None, r)
+                    continue
+                try:
+                    base, cont = canon_val(_parse_num(r[2])), canon_val(_parse_num(r[3]))
+                except ValueError:
+                    _fail(ctx, "row-shape", "report row without numeric values", None, r)
+                    continue
+                rows.append({"key": (r[0], r[1]), "base": base, "cont": cont, "fb": frac(base), "fc": frac(cont), "unit": r[5]})
+            what = f"compare({bid!r}, {cid!r})"
+            oracle_task_values(ctx, stored[bid], stored[cid], rows, what)
+            oracle_global_values(ctx, stored[bid], stored[cid], rows, what)
+            # … and every metric both named races have is listed
+            u = universe()
+            nexp = sum(1 for k in u["scalars"] if is_num(stored[bid].get(k)) and is_num(stored[cid].get(k)))
+            for k in u["shards"]:
+                nexp += sum(1 for s_ in ("min", "median", "max") if is_num((stored[bid].get(k) or {}).get(s_)) and is_num((stored[cid].get(k) or {}).get(s_)))
+            if len([r for r in rows if r["key"][1] == ""]) != nexp:
+                _fail(ctx, "presence-count", f"{what}: number of global rows differs from the metrics stored in both named races", nexp, len([r for r in rows if r["key"][1] == ""]))
+            prefix = any(o != bid and o.startswith(bid) for o in stored) or any(o != cid and o.startswith(cid) for o in stored)
+            ctx.count("store-compare:prefix-of-other" if prefix else "store-compare:plain")
+            ctx.sig(["ok", prefix, bid == cid, len(rows) > 0], nontrivial=len(rows) > 0)
+    finally:
+        shutil.rmtree(tmp, ignore_errors=True)
 
 
 def gen_consts(ctx):
@@ -1190,7 +1515,9 @@ STREAMS = [
     Stream("consts", gen_consts, run_consts, quick=1, thorough=1, shards=1),
     Stream("cells", gen_cells, run_table, quick=2400, thorough=40000, shards=16),
     Stream("tables", gen_tables, run_table, quick=1600, thorough=30000, shards=16),
+    Stream("units", gen_units, run_units, quick=3000, thorough=60000, shards=8),
     Stream("task_aliasing", gen_aliasing, run_table, quick=800, thorough=15000, shards=16),
+    Stream("compare_store", gen_store, run_store, quick=240, thorough=3000, shards=16),
     Stream("none_lists", gen_none_lists, run_table, quick=320, thorough=6000, shards=8),
-    Stream("disk_usage_exercise", gen_disk_usage, run_table, quick=160, thorough=3000, shards=8),
+    Stream("disk_usage", gen_disk_usage, run_table, quick=240, thorough=4000, shards=8),
 ]
